@@ -20,6 +20,11 @@ def tasks(tier, seed):
 def extra(led, tier, seed):
     from contracts import predict_glue
     led.extend(predict_glue.obligations())
+    from contracts import dtype_native
+    led.extend(dtype_native.predict_dtypes(seed))
+    # training-set predictions equal labels_: what fit stores is argmax of _infer on the training data in the caller's row order
+    from contracts import fit_loop
+    led.extend(o for o in fit_loop.obligations() if "labels_ = _infer(X).argmax(1)" in o.name)
     from contracts import infer_local
     led.extend(infer_local.native_locality(seed, tier))
     led.assume("A1", "A2", "A3", "A4", "A8",
